@@ -28,6 +28,7 @@ import dns.rrset
 import dns.set
 
 from lib import Err
+from lib import Hang as lib_Hang
 
 ID = "C07"
 COQ_IMPORTS = "From DV Require Import Model.SetM."
@@ -117,12 +118,20 @@ def rec_obs(rid, rd, text):
     return [rid, int(rd.rdclass), int(rd.rdtype), int(rd.covers()), rd.to_digestable(ROOT), rel, text.encode()]
 
 
+_GEN_ERRORS = {}
+
+
 def make_universe(locs):
-    """locs: list of (family, index) -> list of record obs"""
+    """locs: list of (family, index) -> list of record obs; None (and a recorded failure, reported
+    by extra()) when the implementation cannot even build or digest one of the records"""
     out = []
     for rid, (fam, i) in enumerate(locs):
         c, t, texts = FAMILIES[fam]
-        out.append(rec_obs(rid, mk(fam, i), texts[i % len(texts)]))
+        try:
+            out.append(rec_obs(rid, mk(fam, i), texts[i % len(texts)]))
+        except Exception as e:  # noqa
+            _GEN_ERRORS.setdefault((fam, i % len(texts)), f"{c} {t} {texts[i % len(texts)]!r}: {type(e).__name__}: {e}")
+            return None
     return out
 
 
@@ -548,6 +557,15 @@ def is_immutable_value(o, path, bad):
 
 
 def impl(case):
+    try:
+        return _impl(case)
+    except lib_Hang:
+        raise
+    except Exception as e:  # noqa
+        return Err(500, "harness could not run the case: " + type(e).__name__ + ": " + str(e)[:120])
+
+
+def _impl(case):
     k = case[0]
     if k == 1:
         return run_set(case[1], case[2])
@@ -587,6 +605,8 @@ def gen_set_case(rng, nops):
     main = rng.choice(PLAIN_FAMS + SINGLETON_FAMS + ["NS", "NS", "MX"])
     locs = pick_universe(rng, main, rng.randint(3, 6))
     uni = make_universe(locs)
+    if uni is None:
+        return None
     nu = len(uni)
     nregs = rng.randint(2, 3)
     ops = []
@@ -673,6 +693,8 @@ def gen_rds_case(rng, nops):
     if main == "A" and rng.random() < 0.5:
         locs.append(("GENA", 0))
     uni = make_universe(locs)
+    if uni is None:
+        return None
     nu = len(uni)
     mc, mt = uni[0][1], uni[0][2]
     covs = sorted({u[3] for u in uni if u[1] == mc and u[2] == mt})
@@ -778,6 +800,8 @@ def gen_rds_case(rng, nops):
 
 def exh_rds(main, n, core=False):
     uni = make_universe([(main, 0), (main, 1), (main, 2)])
+    if uni is None:
+        return
     c, t = uni[0][1], uni[0][2]
     pre = [[1, 0, c, t, 0, 0], [1, 1, c, t, 0, 7]]
     alpha = [
@@ -789,14 +813,18 @@ def exh_rds(main, n, core=False):
         [13, 1, 1, 0, 1], [13, 3, 0, 1, 0], [13, 4, 1, 0, 1], [13, 2, 0, 0, 0],
         [14, 4, 0, 1],
     ]
-    if core:
-        alpha = [alpha[i] for i in (0, 1, 2, 4, 5, 6, 8, 9, 10, 12, 15, 20)]
+    if core == 10:
+        alpha = [alpha[i] for i in (0, 1, 2, 4, 5, 6, 9, 10, 12, 20)]
+    elif core == 16:
+        alpha = [alpha[i] for i in (0, 1, 2, 3, 4, 5, 6, 8, 9, 10, 12, 14, 15, 16, 18, 20)]
     for seq in itertools.product(range(len(alpha)), repeat=n):
         yield [2, uni, pre + [alpha[i] for i in seq]]
 
 
-def exh_set(n):
+def exh_set(n, core=False):
     uni = make_universe([("NS", 0), ("NS", 1), ("NS", 2)])
+    if uni is None:
+        return
     pre = [[1, 0, []], [1, 1, []]]
     alpha = [
         [2, 0, 0], [2, 0, 1], [2, 0, 2], [2, 1, 0], [2, 1, 1], [2, 1, 2],
@@ -806,6 +834,8 @@ def exh_set(n):
         [3, 0, 1], [4, 0, 2], [5, 0], [6, 1],
         [10, 4, 0, 1], [10, 1, 0, 1], [10, 3, 0, 1],
     ]
+    if core:
+        alpha = [alpha[i] for i in (0, 1, 2, 4, 5, 6, 7, 8, 9, 10, 11, 12, 13, 14, 17, 19, 20, 22, 24, 26)]
     for seq in itertools.product(range(len(alpha)), repeat=n):
         yield [1, uni, pre + [alpha[i] for i in seq]]
 
@@ -875,19 +905,24 @@ def cases(ctx):
                   ("exh-rds-RRSIG", exh_rds("RRSIG", 1)), ("exh-set", exh_set(2))]
         ctx.notes["exhaustive_scopes"] = "quick: all op sequences of length 2 over 3 records x 2 registers (23-op Rdataset alphabet: NS, CNAME; 29-op Set alphabet)"
     else:
-        scopes = [("exh-rds-NS", exh_rds("NS", 3)), ("exh-rds-CNAME", exh_rds("CNAME", 3)),
-                  ("exh-rds-RRSIG", exh_rds("RRSIG", 2)), ("exh-set", exh_set(3)),
-                  ("exh4-rds-NS", exh_rds("NS", 4, core=True))]
-        ctx.notes["exhaustive_scopes"] = "thorough: all op sequences of length 3 over 3 records x 2 registers (23-op Rdataset alphabet: NS, CNAME; RRSIG length 2; 29-op Set alphabet); length 4 over the 12-op core Rdataset alphabet (NS)"
+        scopes = [("exh-rds-NS", exh_rds("NS", 3)), ("exh-rds-CNAME", exh_rds("CNAME", 3, core=16)),
+                  ("exh-rds-RRSIG", exh_rds("RRSIG", 2)), ("exh-set", exh_set(2)), ("exh3-set", exh_set(3, core=True)),
+                  ("exh4-rds-NS", exh_rds("NS", 4, core=10))]
+        ctx.notes["exhaustive_scopes"] = ("thorough: all op sequences over 3 records x 2 registers: length 3 over the 23-op Rdataset alphabet (NS) and its "
+                                          "16-op core (CNAME), RRSIG length 2, length 4 over the 10-op core (NS); Set machine: length 2 over 29 ops, length 3 over the 20-op core")
     for kind, gen in scopes:
         for c in gen:
             yield kind, c
     ctx.notes["exhaustive"] = True
     # ---- random op sequences
-    for _ in range(ctx.n(500, 8000)):
-        yield "set", gen_set_case(rng, rng.choice([4, 8, 12, 20]))
-    for _ in range(ctx.n(900, 16000)):
-        yield "rds", gen_rds_case(rng, rng.choice([4, 8, 12, 20]))
+    for _ in range(ctx.n(500, 4000)):
+        c = gen_set_case(rng, rng.choice([4, 8, 12, 20] if ctx.quick else [4, 8, 12]))
+        if c is not None:
+            yield "set", c
+    for _ in range(ctx.n(900, 6000)):
+        c = gen_rds_case(rng, rng.choice([4, 8, 12, 20] if ctx.quick else [4, 8, 12, 16]))
+        if c is not None:
+            yield "rds", c
     # ---- record comparisons: all pairs inside each family + cross-family samples
     fams = sorted(FAMILIES)
     for f in fams:
@@ -895,17 +930,20 @@ def cases(ctx):
         for i in range(n):
             for j in range(n):
                 u = make_universe([(f, i), (f, j)])
+                if u is None:
+                    continue
                 ci = (f, min(i, j), max(i, j)) in CI_PAIRS or i == j
                 yield ("cmp-ci" if ci else "cmp"), [3, u[0], u[1]]
     for _ in range(ctx.n(150, 2000)):
         f, g = rng.choice(fams), rng.choice(fams)
         u = make_universe([(f, rng.randrange(9)), (g, rng.randrange(9))])
-        yield "cmp", [3, u[0], u[1]]
+        if u is not None:
+            yield "cmp", [3, u[0], u[1]]
     # ---- immutable guard scripts, constify
-    for _ in range(ctx.n(300, 5000)):
+    for _ in range(ctx.n(300, 2500)):
         # the four objects are created first, so every later action refers to an existing object
         yield "guard", [4, [[3, o, []] for o in range(4)] + gen_acts(rng, 3, set(range(4)), True)]
-    for _ in range(ctx.n(300, 5000)):
+    for _ in range(ctx.n(300, 2500)):
         yield "constify", [5, gen_pval(rng, 3)]
 
 
@@ -1505,9 +1543,48 @@ def _probe_object(o, label, F, count):
                 F.append({"kind": "immutable:changed", "what": f"{what}({label}, {nme!r}) changed the attribute", "cls": label, "attr": nme})
 
 
+def _check_instance(label, rd, F, count, anomalies):
+    _probe_object(rd, label, F, count)
+    bad = []
+    is_immutable_value(rd, label, bad)
+    count[0] += 1
+    for path, why in bad:
+        F.append({"kind": "immutable:field", "what": f"{path} holds a mutable value ({why})", "cls": label, "attr": path})
+    # value semantics survive a wire round trip: equal, same hash
+    try:
+        w = rd.to_wire(origin=ROOT)
+        rd2 = dns.rdata.from_wire(rd.rdclass, rd.rdtype, w, 0, len(w))
+        count[0] += 1
+        if rd.to_digestable(ROOT) == rd2.to_digestable(ROOT) and "rel" not in label:
+            if not (rd == rd2 and hash(rd) == hash(rd2) and not (rd != rd2) and not (rd < rd2) and rd <= rd2):
+                F.append({"kind": "value:roundtrip", "what": f"{label}: wire round trip gives an unequal / differently hashed record", "cls": label})
+    except Exception as e:  # noqa
+        F.append({"kind": "value:roundtrip", "what": f"{label}: {type(e).__name__} {e}", "cls": label})
+    # copies and unpickled records must be immutable as well (__setstate__ runs under the same
+    # guard protocol).  Whether a copy is an *equal* record is outside the property text; what
+    # is observed is reported in coverage.copy_pickle_anomalies, not as a failure.
+    for how, f in (("copy", copy.copy), ("deepcopy", copy.deepcopy), ("pickle", lambda x: pickle.loads(pickle.dumps(x)))):
+        count[0] += 1
+        try:
+            rd3 = f(rd)
+        except Exception as e:  # noqa
+            anomalies.append(f"{label}: {how} raised {type(e).__name__}")
+            continue
+        try:
+            same = rd3 == rd and hash(rd3) == hash(rd) and type(rd3) is type(rd)
+        except Exception as e:  # noqa
+            same = False
+        if not same:
+            anomalies.append(f"{label}: {how} is not an equal record")
+        if rd3 is not rd:
+            _probe_object(rd3, label + " (" + how + ")", F, count)
+
+
 def extra(ctx):
     F = []
     count = [0]
+    for (fam, i), msg in sorted(_GEN_ERRORS.items()):
+        F.append({"kind": "generator:record", "what": "a well-formed record cannot be built or digested: " + msg, "cls": fam})
     saved = dns.rdata._dynamic_load_allowed
     dns.rdata.load_all_types(False)
     dns.rdata._dynamic_load_allowed = saved
@@ -1549,40 +1626,10 @@ def extra(ctx):
     insts.append(("IN NS rel", dns.rdata.from_text("IN", "NS", "foo", relativize=False)))
     for label, rd in insts:
         covered.add(type(rd))
-        _probe_object(rd, label, F, count)
-        bad = []
-        is_immutable_value(rd, label, bad)
-        count[0] += 1
-        for path, why in bad:
-            F.append({"kind": "immutable:field", "what": f"{path} holds a mutable value ({why})", "cls": label, "attr": path})
-        # value semantics survive a wire round trip: equal, same hash
         try:
-            w = rd.to_wire(origin=ROOT)
-            rd2 = dns.rdata.from_wire(rd.rdclass, rd.rdtype, w, 0, len(w))
-            count[0] += 1
-            if rd.to_digestable(ROOT) == rd2.to_digestable(ROOT) and "rel" not in label:
-                if not (rd == rd2 and hash(rd) == hash(rd2) and not (rd != rd2) and not (rd < rd2) and rd <= rd2):
-                    F.append({"kind": "value:roundtrip", "what": f"{label}: wire round trip gives an unequal / differently hashed record", "cls": label})
+            _check_instance(label, rd, F, count, anomalies)
         except Exception as e:  # noqa
-            F.append({"kind": "value:roundtrip", "what": f"{label}: {type(e).__name__} {e}", "cls": label})
-        # copies and unpickled records must be immutable as well (__setstate__ runs under the same
-        # guard protocol).  Whether a copy is an *equal* record is outside the property text; what
-        # is observed is reported in coverage.copy_pickle_anomalies, not as a failure.
-        for how, f in (("copy", copy.copy), ("deepcopy", copy.deepcopy), ("pickle", lambda x: pickle.loads(pickle.dumps(x)))):
-            count[0] += 1
-            try:
-                rd3 = f(rd)
-            except Exception as e:  # noqa
-                anomalies.append(f"{label}: {how} raised {type(e).__name__}")
-                continue
-            try:
-                same = rd3 == rd and hash(rd3) == hash(rd) and type(rd3) is type(rd)
-            except Exception as e:  # noqa
-                same = False
-            if not same:
-                anomalies.append(f"{label}: {how} is not an equal record")
-            if rd3 is not rd:
-                _probe_object(rd3, label + " (" + how + ")", F, count)
+            F.append({"kind": "immutable:crash", "what": f"{label}: checking the instance raised {type(e).__name__}: {e}", "cls": label})
     missing = sorted(c.__module__ + "." + c.__qualname__ for c in registered - covered)
     # the singleton table hard-coded in the model (is_singleton) is the one of dns.rdatatype
     if {int(t) for t in dns.rdatatype._singletons} != SINGLETONS:
@@ -1595,21 +1642,24 @@ def extra(ctx):
     ctx.notes["immutability_registered_without_sample"] = missing
     # SVCB params and friends are reached through the fields of the instances above.
     # ---- Name, ImmutableRdataset, immutable.Dict
-    n = dns.name.from_text("Foo.Example.")
-    _probe_object(n, "Name", F, count)
-    bad = []
-    is_immutable_value(n, "Name", bad)
-    rds = dns.rdataset.from_text("IN", "A", 300, "10.0.0.1", "10.0.0.2")
-    irds = dns.rdataset.ImmutableRdataset(rds)
-    _probe_object(irds, "ImmutableRdataset", F, count)
-    if not isinstance(irds.items, dns.immutable.Dict):
-        bad.append(("ImmutableRdataset.items", type(irds.items).__name__))
-    _probe_object(irds.items, "immutable.Dict", F, count)
-    rds.add(dns.rdata.from_text("IN", "A", "10.0.0.3"))
-    if len(irds) != 2:
-        bad.append(("ImmutableRdataset.items", "shares the dict of the source rdataset"))
-    for path, why in bad:
-        F.append({"kind": "immutable:field", "what": f"{path} holds a mutable value ({why})", "cls": path, "attr": path})
+    try:
+        n = dns.name.from_text("Foo.Example.")
+        _probe_object(n, "Name", F, count)
+        bad = []
+        is_immutable_value(n, "Name", bad)
+        rds = dns.rdataset.from_text("IN", "A", 300, "10.0.0.1", "10.0.0.2")
+        irds = dns.rdataset.ImmutableRdataset(rds)
+        _probe_object(irds, "ImmutableRdataset", F, count)
+        if not isinstance(irds.items, dns.immutable.Dict):
+            bad.append(("ImmutableRdataset.items", type(irds.items).__name__))
+        _probe_object(irds.items, "immutable.Dict", F, count)
+        rds.add(dns.rdata.from_text("IN", "A", "10.0.0.3"))
+        if len(irds) != 2:
+            bad.append(("ImmutableRdataset.items", "shares the dict of the source rdataset"))
+        for path, why in bad:
+            F.append({"kind": "immutable:field", "what": f"{path} holds a mutable value ({why})", "cls": path, "attr": path})
+    except Exception as e:  # noqa
+        F.append({"kind": "immutable:crash", "what": f"Name/ImmutableRdataset checks raised {type(e).__name__}: {e}", "cls": "Name/ImmutableRdataset"})
     ctx.notes["extra_evaluations"] = count[0]
     ctx.notes["extra_nontrivial"] = len(insts) + len(classes)
     return F
